@@ -158,6 +158,101 @@ def gen_group_program(rng):
     return [1, workers, 0, len(ops)] + flat
 
 
+def gen_names_window(rng):
+    """kind 1 programs about the reservation window: a named spawn whose pre_start is held open by
+    the harness (op 12 ... op 13) while other spawns of the same name, lookups and unrelated spawns
+    happen; then the winner lives, stops, and the name is taken again"""
+    workers = rng.choice([1, 1, 2, 3, 4])
+    end_mode = 1 if rng.random() < 0.12 else 0
+    ops = []
+    nact = [0]
+
+    def add_spawn(code, name, cap, flags=0):
+        if nact[0] >= MAXA:
+            return None
+        ops.append([code, name, cap, flags, 0])
+        nact[0] += 1
+        return nact[0] - 1
+
+    name = rng.randrange(1, 4)
+    other = name % 3 + 1
+    first_flags = 1 if rng.random() < 0.2 else 0          # pre_start of the first one may fail
+    first = add_spawn(12, name, rng.choice([1, 2, 3]), first_flags)
+    for _ in range(rng.randrange(1, 5)):
+        r = rng.random()
+        if r < 0.35:
+            add_spawn(1, name, rng.choice([1, 2, 4]))         # must be refused: the name is reserved
+        elif r < 0.55:
+            add_spawn(12, name, rng.choice([1, 2, 4]))        # a second gated one: refused at once
+        elif r < 0.8:
+            ops.append([5, name, 0, 0, 0])                    # invisible before activation
+        elif r < 0.9:
+            add_spawn(rng.choice([1, 12]), other, 2)
+        else:
+            ops.append([5, other, 0, 0, 0])
+    if rng.random() < 0.85:
+        ops.append([13, first, 0, 0, 0])                      # pre_start finishes: activation (or failure)
+        ops.append([5, name, 0, 0, 0])
+        for _ in range(rng.randrange(0, 3)):
+            r = rng.random()
+            if r < 0.5:
+                add_spawn(rng.choice([1, 12]), name, rng.choice([1, 3]))
+            elif r < 0.8:
+                ops.append([5, name, 0, 0, 0])
+            else:
+                ops.append([2, first, 50 + len(ops), 0, 0])
+        if rng.random() < 0.6:
+            ops.append([rng.choice([4, 4, 2]), first, 60 + len(ops), 1, 0])   # stop / failing message
+            ops.append([5, name, 0, 0, 0])
+            w = add_spawn(rng.choice([1, 12]), name, rng.choice([2, 3]))
+            if w is not None and ops[-1][0] == 12 and rng.random() < 0.7:
+                ops.append([5, name, 0, 0, 0])
+                ops.append([13, w, 0, 0, 0])
+            ops.append([5, name, 0, 0, 0])
+    # pending spawns that are left are finished (or cancelled) by the end of the program
+    flat = [x for o in ops for x in o]
+    return [1, workers, end_mode, len(ops)] + flat
+
+
+def gen_poststop_wait(rng):
+    """kind 1 programs in which post_stop waits for the caller of a call that was still queued when
+    the actor stopped: the caller gives the signal only after its call returned (op 14)"""
+    workers = rng.randrange(1, 5)
+    cap = rng.choice([1, 2, 3, 4])
+    name = rng.choice([0, 0, 2])
+    flags = 64 | (rng.choice([0, 0, 0, 4, 8]))
+    ops = [[1, name, cap, flags, 0]]
+    ident = 1
+    ops.append([2, 0, ident, 2, 0])               # the actor is stuck in a handler
+    ncalls = 0
+    for _ in range(rng.randrange(1, cap + 2)):
+        ident += 1
+        if rng.random() < 0.75:
+            ops.append([3, 0, ident, rng.choice([0, 0, 4]), 0])
+            ncalls += 1
+        else:
+            ops.append([2, 0, ident, 0, 0])
+    how = rng.random()
+    if how < 0.7:
+        ops.append([4, 0, 0, 0, 0])                # stop() while they are queued
+    else:
+        ident += 1
+        ops.insert(2, [2, 0, 90, 1, 0]) if cap > 1 and rng.random() < 0.5 else ops.append([4, 0, 0, 0, 0])
+    ops.append([6, 0, 0, 0, 0])                    # the handler ends; the actor stops and reaches post_stop
+    if name:
+        ops.append([5, name, 0, 0, 0])
+    order = list(range(ncalls))
+    rng.shuffle(order)
+    for k in order:
+        ops.append([14, k, 0, 0, 0])               # each caller has its answer, then signals
+    if not order and rng.random() < 0.5:
+        ops.append([14, 0, 0, 0, 0])
+    if name:
+        ops.append([5, name, 0, 0, 0])
+    flat = [x for o in ops for x in o]
+    return [1, workers, 0, len(ops)] + flat
+
+
 def gen_kind2(rng):
     workers = rng.randrange(1, 5)
     cap = rng.choice([1, 1, 2, 2, 3, 8])
@@ -216,14 +311,20 @@ def generate(seed, n):
     cases = []
     for _ in range(n):
         r = rng.random()
-        if r < 0.45:
+        if r < 0.33:
             cases.append(gen_kind1(rng))
-        elif r < 0.60:
+        elif r < 0.45:
             cases.append(gen_group_program(rng))
+        elif r < 0.57:
+            cases.append(gen_names_window(rng))
+        elif r < 0.66:
+            cases.append(gen_poststop_wait(rng))
         elif r < 0.88:
             cases.append(gen_kind2(rng))
-        else:
+        elif r < 0.97:
             cases.append(gen_kind3(rng))
+        else:
+            cases.append([5, rng.randrange(1, 5), rng.choice([1, 2, 3]), rng.randrange(1, 5)])
     return cases
 
 
@@ -231,7 +332,9 @@ def describe(case):
     k = case[0] if case else 0
     if k == 1:
         ops = [case[4 + 5 * i] for i in range(case[3])] if len(case) >= 4 else []
-        kind = "group" if any(o in (7, 8, 11) for o in ops) else "actors"
+        kind = ("group" if any(o in (7, 8, 11) for o in ops) else
+                "names-window" if any(o in (12, 13) for o in ops) else
+                "post_stop-waits" if 14 in ops else "actors")
         return "program:%s,end=%s,workers=%d" % (kind, "join" if case[2] else "stop", case[1])
     if k == 2:
         return "concurrent-mailbox,threads=%d,cap=%d" % (case[4], case[2])
@@ -239,6 +342,8 @@ def describe(case):
         return "concurrent-group,threads=%d" % case[3 + 2 * case[2]]
     if k == 4:
         return "forced-schedule:late-push"
+    if k == 5:
+        return "concurrent-post_stop-waits,threads=%d" % case[3]
     return "other"
 
 
@@ -252,4 +357,8 @@ def nontrivial(case, out):
         return any(out[1 + 3 * i] == 7 for i in range(out[0]))
     if k == 4:
         return len(out) == 3 and out[0] == 1
+    if k == 5:
+        return len(out) >= 2 and any(x == 4 for x in out[1:])
+    if k == 1 and any(case[4 + 5 * i] in (12, 13) for i in range(case[3])):
+        return True
     return out[0] > 0
